@@ -237,7 +237,16 @@ fn eval(c: &Case, o: &mut Out) {
     } else {
         sexp::list(&r.emitted, |e| match e { Some(n) => sexp::a(n), None => sexp::a("-") }).to_string()
     };
-    o.case(r.model_input.clone(), res, r.edits_between_nexts);
+    // inadmissible histories are outside the property: their comparison with the model is kept as
+    // information (case kind c15x: a difference there is recorded, not reported)
+    let model_input = if r.admissible { r.model_input.clone() } else { r.model_input.replacen("(c15 ", "(c15x ", 1) };
+    o.case(model_input, res.clone(), r.edits_between_nexts);
+    // admissible histories: the verified validator (Cert/TopoCheck.v) on the history itself —
+    // the property does not say which of several ready nodes is emitted first
+    if r.admissible && !r.panicked {
+        let calls = sexp::parse(&r.model_input).unwrap().as_list()[2].clone();
+        o.case(sexp::l(vec![sexp::a("c15v"), calls, sexp::parse(&res).unwrap()]).to_string(), "1".into(), r.edits_between_nexts);
+    }
     o.count("history", if r.admissible { "admissible" } else { "inadmissible" });
     o.count("nexts", c.steps.iter().filter(|s| **s == Step::Next).count().min(12));
     o.count("edits", c.steps.iter().filter(|s| **s != Step::Next).count().min(12));
